@@ -506,9 +506,9 @@ class Fn:
             return self.for_(s, k, env)
         gap(s, 'statement not in the vocabulary')
 
-    def joined_vars(self, s, env):
+    def joined_vars(self, s, env, local=()):
         """state of a statement whose branches fall through; names it binds that do not exist before must be local to it"""
-        vs = assigned([s])
+        vs = [v for v in assigned([s]) if v not in local]
         inside, whole = names_in(s), names_in(self.node)
         for v in vs:
             if v not in env and inside.count(v) != whole.count(v):
@@ -551,7 +551,7 @@ class Fn:
             if rest:
                 gap(rest[0], 'unreachable statement')
             a, b = self.block(s.body, None, env, may_return), self.block(s.orelse, None, env, may_return)
-        elif (eb or eo) and may_return:
+        elif eb or eo:
             a = self.block(s.body, None if eb else k, env, may_return)
             b = self.block(s.orelse, None if eo else k, env, may_return)
         else:
@@ -569,7 +569,7 @@ class Fn:
         if s.orelse or not isinstance(s.target, ast.Name) or s.target.id in env:
             gap(s, 'for / else, or a loop variable that exists before')
         var = s.target.id
-        vs = [v for v in self.joined_vars(s, env) if v != var]
+        vs = self.joined_vars(s, env, (var,))
         pend = []
 
         def again(env2):
